@@ -37,6 +37,21 @@ func (g *Gen) lpIntTok(v int64) string {
 	return o + ":" + strconv.FormatInt(v, 10)
 }
 
+// StreamShape is what a generated stream exercises (coverage counters of the harness).
+type StreamShape struct {
+	Ver            int
+	Nodes, Live    int
+	Deleted        int
+	BigIDs         bool // ids at or above 2^63
+	Groups         int
+	Pending        int  // PEL entries over all groups
+	EmptyConsumers int  // consumers without pending entries (NOT carried by the expansion)
+	PendingGone    int  // pending ids whose entry is deleted or trimmed (NOT recreatable by commands: lost on the expansion path)
+	ReadInvalid    int  // groups whose entries-read is -1 (SCG_INVALID_ENTRIES_READ), stored (v2+)
+	GroupAhead     int  // groups whose last-delivered id lies beyond the stream's last id
+	LastAhead      bool // last id above the last entry (entries deleted at the tail)
+}
+
 type sid struct{ ms, seq uint64 }
 
 func (a sid) String() string { return fmt.Sprintf("%d-%d", a.ms, a.seq) }
@@ -48,6 +63,7 @@ func (a sid) less(b sid) bool {
 func (g *Gen) Stream() (string, *Val, string) {
 	ver := g.R.Range(1, 4)
 	sv := &StreamVal{}
+	shape := &StreamShape{Ver: ver}
 	var toks []string
 	nNodes := g.R.Intn(4)
 	// first id
@@ -66,7 +82,8 @@ func (g *Gen) Stream() (string, *Val, string) {
 	type live struct {
 		id sid
 	}
-	var lives []sid
+	var lives, dels []sid
+	firstEver := cur
 	var maxDel sid
 	total := 0
 	var last sid
@@ -122,7 +139,12 @@ func (g *Gen) Stream() (string, *Val, string) {
 				strings.TrimSpace(fmt.Sprintf("%d %s", len(items), strings.Join(items, " ")))))
 			total++
 			last = id
+			if id.ms >= 1<<63 || id.seq >= 1<<63 {
+				shape.BigIDs = true
+			}
 			if deleted {
+				dels = append(dels, id)
+				shape.Deleted++
 				if maxDel.less(id) {
 					maxDel = id
 				}
@@ -153,7 +175,9 @@ func (g *Gen) Stream() (string, *Val, string) {
 			strings.TrimSpace(fmt.Sprintf("%d %s", len(mfTok), strings.Join(mfTok, " "))), ne, strings.Join(eToks, " ")))
 	}
 	if g.R.Chance(1, 4) && last.ms < ^uint64(0)-10 {
-		last = sid{last.ms + uint64(g.R.Intn(5)), last.seq + uint64(g.R.Intn(3))}
+		nl := sid{last.ms + uint64(g.R.Intn(5)), last.seq + uint64(g.R.Intn(3))}
+		shape.LastAhead = nl != last
+		last = nl
 	}
 	if total == 0 && g.R.Bool() {
 		last = sid{}
@@ -180,22 +204,49 @@ func (g *Gen) Stream() (string, *Val, string) {
 	for i := 0; i < ng; i++ {
 		nt, name := distinct(seenG, g.SE)
 		gl := last
-		switch g.R.Intn(3) {
+		switch g.R.Intn(4) {
 		case 0:
 			gl = sid{}
 		case 1:
 			if len(lives) > 0 {
 				gl = vfutil.Pick(g.R, lives)
 			}
+		case 2:
+			// XGROUP SETID to an id the stream has not reached yet
+			if last.ms < ^uint64(0)-10 && g.R.Bool() {
+				gl = sid{last.ms + 1 + uint64(g.R.Intn(3)), uint64(g.R.Intn(3))}
+				shape.GroupAhead++
+			}
 		}
 		er := uint64(g.R.Intn(int(added) + 1))
-		sg := SGroup{Name: name, LastID: gl.String(), EntriesRead: strconv.FormatUint(er, 10)}
+		erStr := strconv.FormatUint(er, 10)
+		if g.R.Chance(1, 5) {
+			// entries read unknown: SCG_INVALID_ENTRIES_READ (-1), saved as 2^64-1
+			er, erStr = ^uint64(0), "-1"
+			if ver >= 2 {
+				shape.ReadInvalid++
+			}
+		}
+		sg := SGroup{Name: name, LastID: gl.String(), EntriesRead: erStr}
 		// PEL: a subset of the live entries, partitioned over consumers
 		var pel []sid
 		for _, id := range lives {
 			if g.R.Chance(1, 3) {
 				pel = append(pel, id)
 			}
+		}
+		// pending ids whose entry is gone - XDEL of a delivered entry, or MAXLEN trimming under a slow
+		// consumer: ordinary production data. No command recreates them (XCLAIM FORCE needs the entry)
+		gone := map[sid]bool{}
+		for _, id := range dels {
+			if g.R.Chance(1, 4) {
+				pel = append(pel, id)
+				gone[id] = true
+			}
+		}
+		if trimmed := (sid{0, 1}); nNodes > 0 && trimmed.less(firstEver) && g.R.Chance(1, 6) {
+			pel = append(pel, trimmed)
+			gone[trimmed] = true
 		}
 		nc := g.R.Intn(3)
 		if nc == 0 {
@@ -224,9 +275,28 @@ func (g *Gen) Stream() (string, *Val, string) {
 				}
 			}
 			gt = append(gt, ct, u(uint64(946684000000+g.R.Intn(1000))), u(uint64(946684000000+g.R.Intn(1000))), strconv.Itoa(len(mine)))
+			if len(mine) == 0 {
+				shape.EmptyConsumers++
+			}
+			livePending := 0
 			for _, nk := range mine {
 				gt = append(gt, u(nk.id.ms), u(nk.id.seq))
+				if gone[nk.id] {
+					shape.PendingGone++
+					continue
+				}
+				livePending++
+				shape.Pending++
 				sg.Pel = append(sg.Pel, SNack{ID: nk.id.String(), Consumer: cname, Time: u(nk.tm), Count: u(nk.count)})
+			}
+			if livePending > 0 {
+				sg.ConsumersWithPending = append(sg.ConsumersWithPending, cname)
+			}
+			if livePending > 0 || len(mine) == 0 {
+				// what commands CAN carry to a 6.2+ target: XCLAIM creates the owner of a live pending
+				// entry, XGROUP CREATECONSUMER an idle consumer; a consumer all of whose pending ids are
+				// gone is recreated by nothing
+				sg.Consumers = append(sg.Consumers, cname)
 			}
 		}
 		toks = append(toks, gt...)
@@ -248,18 +318,52 @@ func (g *Gen) Stream() (string, *Val, string) {
 		}
 	}
 	toks = append(toks, strconv.Itoa(g.R.Intn(100)), strconv.Itoa(g.R.Intn(100)))
-	return strings.Join(strings.Fields(strings.Join(toks, " ")), " "), &Val{Kind: "stream", Stream: sv, StreamVer: ver}, "stream"
+	shape.Nodes, shape.Live, shape.Groups = nNodes, len(lives), ng
+	return strings.Join(strings.Fields(strings.Join(toks, " ")), " "), &Val{Kind: "stream", Stream: sv, StreamVer: ver, Shape: shape}, "stream"
 }
 
 func u(x uint64) string { return strconv.FormatUint(x, 10) }
+
+// Counters names the coverage classes a stream shape falls into.
+func (sh *StreamShape) Counters() []string {
+	if sh == nil {
+		return nil
+	}
+	c := []string{fmt.Sprintf("stream_ver_%d", sh.Ver)}
+	add := func(cond bool, name string) {
+		if cond {
+			c = append(c, name)
+		}
+	}
+	add(sh.Live == 0, "stream_empty")
+	add(sh.Nodes > 1, "stream_multi_node")
+	add(sh.Deleted > 0, "stream_with_deleted_entries")
+	add(sh.BigIDs, "stream_ids_above_2^63")
+	add(sh.LastAhead, "stream_last_id_above_last_entry")
+	add(sh.Groups > 0, "stream_with_groups")
+	add(sh.Groups > 1, "stream_with_several_groups")
+	add(sh.Pending > 0, "stream_with_pending_entries")
+	add(sh.EmptyConsumers > 0, "stream_with_consumer_without_pending")
+	add(sh.PendingGone > 0, "stream_with_pending_id_of_deleted_or_trimmed_entry")
+	add(sh.ReadInvalid > 0, "stream_group_entries_read_unknown")
+	add(sh.GroupAhead > 0, "stream_group_last_id_ahead_of_stream")
+	return c
+}
 
 // NormalizeStream blanks, on both the expected and the observed stream, the
 // metadata the property does not name and the replay cannot carry: counters
 // are only sent to a target ≥ 7; for a version-1 stream `entries read` is an
 // estimate.
-func NormalizeStream(exp, got *Val, tgt int) {
+func NormalizeStream(exp, got *Val, tgt, minor int) {
 	if exp == nil || got == nil || exp.Kind != "stream" || got.Kind != "stream" {
 		return
+	}
+	if tgt < 6 || (tgt == 6 && minor < 2) {
+		// no XGROUP CREATECONSUMER before 6.2: a consumer without (live) pending entries cannot be
+		// carried by commands to such a target (declared limit; the RESTORE path keeps it)
+		for i := range exp.Stream.Groups {
+			exp.Stream.Groups[i].Consumers = exp.Stream.Groups[i].ConsumersWithPending
+		}
 	}
 	if tgt < 7 {
 		exp.Stream.EntriesAdded, exp.Stream.MaxDeleted = "", ""
